@@ -1163,6 +1163,16 @@ def _mask_array(m):
 
 def _index(idx):
     if isinstance(idx, tuple):
+        if builtins.sum(1 for i in idx if i is Ellipsis) > 1:
+            # torch accepts x[:, ..., ...]: the first ellipsis absorbs the remaining dimensions, the others none
+            seen, out = False, []
+            for i in idx:
+                if i is Ellipsis:
+                    if seen:
+                        continue
+                    seen = True
+                out.append(i)
+            idx = tuple(out)
         return tuple(_index1(i) for i in idx)
     return _index1(idx)
 
